@@ -47,14 +47,22 @@ pub fn logit_data(nmax: usize) -> BoxedStrategy<(String, Mat, Vec<f64>)> {
             let mut lab: Vec<f64> = vals[..k].to_vec();
             lab.sort_by(|a, b| a.partial_cmp(b).unwrap());
             let x = Mat::from_fn(n, p, |i, j| ((centres[cls[i]][j] * sep + rows[i].1[j] * 0.5) + fs[j].1 * 2.0) * fs[j].0);
+            // every third well-separated set gets exactly one mislabelled row (an outlier inside another class)
+            let one_outlier = sep >= 6.0 && n % 3 == 0 && k >= 2;
+            // (only a row whose class keeps another member, so that every class stays present)
+            let one_outlier = one_outlier && cls.iter().filter(|c| **c == cls[n / 2]).count() >= 2;
+            if one_outlier {
+                let i = n / 2;
+                cls[i] = (cls[i] + 1) % k;
+            }
             let y: Vec<f64> = cls.iter().map(|c| lab[*c]).collect();
-            (if sep >= 6.0 { "well-separated" } else if sep >= 1.5 { "moderate" } else { "overlapping" }.to_string(), x, y)
+            (if one_outlier { "well-separated+one-mislabelled" } else if sep >= 6.0 { "well-separated" } else if sep >= 1.5 { "moderate" } else { "overlapping" }.to_string(), x, y)
         })
         .boxed()
 }
 
 fn strat_logit(t: Tier) -> BoxedStrategy<LogitCase> {
-    (logit_data(t.pick(60, 100)), prop_oneof![4 => pow10(-2, 1), 1 => Just(0.0)])
+    (logit_data(t.pick(100, 100)), prop_oneof![4 => pow10(-2, 1), 1 => Just(0.0)])
         .prop_flat_map(|((layout, x, y), alpha)| {
             let p = x.c;
             (Just((layout, x, y, alpha)), unit_mat(4, p))
@@ -329,7 +337,7 @@ pub fn property() -> Property {
     Property {
         id: "C09",
         quick_mult: 8,
-        rule: "training sets with 1<=p<=6, 6<=n<=60 (quick) / 100 (thorough), 2..4 classes with label values from {-3,0,1,2.5,10} (as they are, rescaled by 2^[-70,40], or replaced by consecutive floating-point numbers one ulp apart), class centres at separation 0.5 / 1.5 / 6 noise widths (overlapping, moderate, well separated), features scaled by 10^[-1,2] and shifted (one case in eight: all features at scale 1e2 with maximal shift); alpha in 1e-2..10 (80%) or 0; fresh rows for predict. Quadratics 1/2 x^T Q x - b^T x with Q = R diag(l) R^T of dimension 1..12, cond 3 / 1e2 / 1e4, overall scale 1e-2..1e2, start of norm up to 1e3. non-trivial = >= 3 classes or not well separated (logistic), dimension >= 3 and cond >= 100 (quadratics); distinct = distinct serialised case",
+        rule: "training sets with 1<=p<=6, 6<=n<=100, 2..4 classes with label values from {-3,0,1,2.5,10} (as they are, rescaled by 2^[-70,40], or replaced by consecutive floating-point numbers one ulp apart), class centres at separation 0.5 / 1.5 / 6 noise widths (overlapping, moderate, well separated, well separated with exactly one mislabelled row), features scaled by 10^[-1,2] and shifted (one case in eight: all features at scale 1e2 with maximal shift); alpha in 1e-2..10 (80%) or 0; fresh rows for predict. Quadratics 1/2 x^T Q x - b^T x with Q = R diag(l) R^T of dimension 1..12, cond 3 / 1e2 / 1e4, overall scale 1e-2..1e2, start of norm up to 1e3. non-trivial = >= 3 classes or not well separated (logistic), dimension >= 3 and cond >= 100 (quadratics); distinct = distinct serialised case",
         assumptions: vec![
             "stationarity: ||grad F(w*)||_inf <= 1e-5 * max(1, ||grad F(0)||_inf) with our own log-sum-exp objective (intercepts unpenalised); asserted for alpha > 0 only".into(),
             "L-BFGS is driven through the cfg(smartcore_verif) re-export; monotonicity is observed by re-running the deterministic optimiser with max_iter = 1..20".into(),
